@@ -21,17 +21,19 @@ def _isclass(cl):
         return False
 
 
-def _tag_key(tag) -> str:
+def _tag_key(tag, strict: bool = False) -> str:
     """Container key of a tag given as int, decimal string or FTag enum.
 
     All spellings of the same integer ('35', 35, '035', ' 35', FTag.MsgType) share one
     key: the canonical decimal text. Anything that is not an integer is its own key
-    (never present in a container, because set() refuses it).
+    (never present in a container, because the setters refuse it: strict=True).
     """
     t = str(tag)
     try:
         return str(int(t))
     except ValueError:
+        if strict:
+            raise FIXMessageError("Tags must be only integers")
         return t
 
 
@@ -181,7 +183,7 @@ class FIXContainer:
         Raises:
             FIXMessageError: incorrect group type/value
         """
-        tag = _tag_key(tag)
+        tag = _tag_key(tag, strict=True)
 
         if isinstance(group, dict):
             group = FIXContainer(group)
@@ -207,7 +209,7 @@ class FIXContainer:
             DuplicatedTagError: group with the same tag already exists
             FIXMessageError: incorrect group type/value
         """
-        tag = _tag_key(tag)
+        tag = _tag_key(tag, strict=True)
 
         if tag in self:
             raise DuplicatedTagError(f"group with {tag=} already exists")
